@@ -62,7 +62,10 @@ Print Assumptions C01_root_fifo_per_pusher.
    (5) STALL: the pool has a free slot, nothing is pending, the signals are banked (this IS the lost wake-up:
        C01_root_stall_needs_monitor; only not-overcommit queues: C01_root_overcommit_no_stall);
    (6) ALL-BUSY: every slot of the pool is a thread inside a work item.
-   (5) and (6) are repaired by the monitor only: C01_root_monitor_repairs. *)
+   In (5) and (6) no thread of the pool protocol is responsible for the item: it is picked up when an item that is running
+   returns (its worker looks again), or by the monitor: C01_root_monitor_repairs shows that a repairing schedule of the
+   monitor EXISTS from such a state.  Note on (4): a pusher that has just entered (PPushCall / PPushXchg) satisfies it too;
+   when it finishes, the split applies again to the state it leaves (which may again be (5)). *)
 Theorem C01_root_unclaimed_item_cases : forall oc p0 s, valid_init p0 -> reach oc p0 s -> unclaimed s <> [] ->
   (exists t, tok (pcs s t) = true) \/
   (1 <= surplus s /\ exists t, sem_taker s t) \/
@@ -82,7 +85,8 @@ Theorem C01_root_overcommit_no_stall : forall p0 s, valid_init p0 -> reach true 
 Proof. exact overcommit_active. Qed.
 Print Assumptions C01_root_overcommit_no_stall.
 
-(* the repair of STALL and ALL-BUSY by ONE pass of the monitor, linked to the state: b is the bucket the pass computes from
+(* EXISTENCE of a repairing schedule (not a statement about every schedule, and `runnable` is a free oracle standing for what
+   /proc reports): the repair of STALL and ALL-BUSY by ONE pass of the monitor run alone, linked to the state: b is the bucket the pass computes from
    s (probe of dq_items_tail, registered workers that /proc reports runnable), d its decision for that bucket.
    (a) d is `decision` of b (RootQ_live_proofs): poke with floor target - 255 if no worker is runnable, with floor
        max(-target, target - 255) if fewer than target are and the global count is below 2 * target, else nothing
@@ -118,10 +122,12 @@ Theorem C01_root_progress : forall oc p0 s t, valid_init p0 -> reach oc p0 s -> 
 Proof. exact progress. Qed.
 Print Assumptions C01_root_progress.
 
-(* the two spin waits (self-loops of the model) end through a named thread that exists and can step:
-   - _dispatch_wait_for_enqueuer(&head->do_next) while the link is 0: the pusher u at its link store; its step stores the link;
-   - __DISPATCH_ROOT_QUEUE_CONTENDED_WAIT__ while dq_items_head = MEDIATOR: a worker at its cmpxchg MEDIATOR -> NULL, or the
-     holder of the claimed item before its store to dq_items_head *)
+(* the two spin waits (self-loops of the model) depend on a named thread that exists and can step:
+   - (1) _dispatch_wait_for_enqueuer(&head->do_next) while the link is 0: the pusher u at its link store; its step stores the
+     link, i.e. ENDS the wait;
+   - (2) __DISPATCH_ROOT_QUEUE_CONTENDED_WAIT__ while dq_items_head = MEDIATOR: a worker at its cmpxchg MEDIATOR -> NULL, or the
+     holder of the claimed item somewhere before its store to dq_items_head.  (2) names the thread and says it can step; it
+     does NOT say that this one step replaces the marker: the holder may first have to read do_next, or itself be in wait (1) *)
 Theorem C01_root_spin_waits :
   (forall oc p0 s t h f, valid_init p0 -> reach oc p0 s -> pcs s t = PDrainWaitNext h f -> nxt s h = 0 ->
      exists u c b, u <> t /\ pcs s u = PPushLink c b h /\ enabled oc s u /\
